@@ -124,6 +124,7 @@ func runCaseFull(c *Case) (tr Trace) {
 	var sharedI dig.InvokeInfo
 	for _, op := range c.Ops {
 		var ot OpTrace
+		errVizPanicked := false
 		r.events = nil
 		switch op.Op {
 		case "scope":
@@ -187,6 +188,13 @@ func runCaseFull(c *Case) (tr Trace) {
 			fv := r.makeFunc(f, "inv")
 			var ierr error
 			ot.Verdict = guard(func() error { ierr = apis[op.Scope].invoke(fv.Interface(), io...); return ierr })
+			if !c.Viz && ierr != nil {
+				// every error of a failed Invoke must be drawable without a panic
+				saved := r.events
+				var b bytes.Buffer
+				errVizPanicked = !noPanic(func() { dig.Visualize(r.cont, &b, dig.VisualizeError(ierr)) })
+				r.events = saved
+			}
 			if c.Viz && ierr != nil {
 				saved := r.events
 				var b bytes.Buffer
@@ -258,7 +266,7 @@ func runCaseFull(c *Case) (tr Trace) {
 		}
 		r.events = nil
 		var vb bytes.Buffer
-		ot.VizOK = noPanic(func() { dig.Visualize(r.cont, &vb) })
+		ot.VizOK = noPanic(func() { dig.Visualize(r.cont, &vb) }) && !errVizPanicked
 		if c.Viz {
 			ot.Dot = vb.String()
 		}
